@@ -97,6 +97,18 @@ static void *split_worker(void *a_) {
   a->gid = from_matrix(gid);
   train_test_split(x, y, a->c->testsize, xtr, ytr, xte, yte, ids, &s);
   a->xtr = from_matrix(xtr); a->ytr = from_matrix(ytr); a->xte = from_matrix(xte); a->yte = from_matrix(yte); a->ids = from_uivector(ids);
+  // a sweep over further seeds and group counts (cheap: no model is fitted): rare branches of the generator (long rejection streaks)
+  // are reached far more often than through the validation routines; one checksum per call goes into the compared output
+  if (a->c->iters > 1) {
+    std::vector<double> sums;
+    for (int r = 1; r < a->c->iters * 8; r++) {
+      matrix *g2; initMatrix(&g2); unsigned s2 = a->seed * 7919u + (unsigned)r; size_t ng = 1 + (size_t)(s2 % (unsigned)x->row);
+      random_kfold_group_generator(g2, ng, x->row, &s2);
+      double cs = 0; for (size_t i = 0; i < g2->row; i++) for (size_t j = 0; j < g2->col; j++) cs += (double)((i + 1) * 131 + (j + 1)) * g2->data[i][j];
+      sums.push_back(cs); DelMatrix(&g2);
+    }
+    a->gid.push_back(sums);
+  }
   DelMatrix(&gid); DelMatrix(&xtr); DelMatrix(&ytr); DelMatrix(&xte); DelMatrix(&yte); DelUIVector(&ids); DelMatrix(&x); DelMatrix(&y);
   return nullptr;
 }
@@ -246,6 +258,8 @@ struct HCv : Harness {
       n = (int)wr.range(6, 24); px = (int)wr.range(1, 5); ny = (int)wr.range(1, 2);
       if (routine == R_YSCR_BOOT) { n = (int)wr.range(8, 11); px = (int)wr.range(1, 2); ny = 1; }
       if (routine == R_YSCR_LOO) { n = (int)wr.range(6, 12); }
+      // a size threshold in the library (threads only above so many objects / iterations) must not hide a path: now and then a large case
+      if ((routine == R_BOOT || routine == R_LOO || routine == R_KFOLD || routine == R_KMEANS_CV || routine == R_PCARANK) && wr.chance(0.03)) { n = (int)wr.range(40, 80); px = (int)wr.range(3, 8); p.seti("large", 1); }
     } else {
       uint64_t r = wr.below(100);
       routine = r < 30 ? R_LOO : r < 55 ? R_KFOLD : r < 85 ? R_BOOT : R_GEN;
@@ -271,12 +285,13 @@ struct HCv : Harness {
     if (learner == L_LDA && groups < 3) groups = 3;
     if (learner == L_LDA && groups > 4) groups = 4;
     int iters = (int)wr.range(1, 12);
+    if (p.geti("large", 0) && routine == R_BOOT) iters = (int)wr.range(12, 40);
     if (force_one_iter) iters = 1;
     if (routine == R_YSCR_LOO || routine == R_YSCR_BOOT) iters = (int)wr.range(1, routine == R_YSCR_BOOT ? 1 : 3);
     if (routine == R_KMEANS_CV || routine == R_PCARANK) iters = (int)wr.range(1, 3);
     int nth = (int)wr.range(1, 8);
     if (routine == R_BOOT) { std::vector<int> d; for (int k = 1; k <= 8; k++) if (iters % k == 0) d.push_back(k); nth = d[wr.below(d.size())]; }
-    if (routine == R_SPLIT_CONC) { nth = (int)wr.range(2, 4); p.seti("conc_threads", nth); groups = (int)wr.range(1, n); }
+    if (routine == R_SPLIT_CONC) { nth = (int)wr.range(2, 4); p.seti("conc_threads", nth); groups = (int)wr.range(1, n); iters = (int)wr.range(1, 12); }
     if (routine == R_PCARANK) nth = (int)p.geti("machine.nproc");
     p.seti("groups", groups); p.seti("iterations", iters); p.seti("nthreads", nth);
     p.seti("noise", c06 && wr.chance(0.35) ? 1 : 0);
@@ -357,6 +372,7 @@ struct HCv : Harness {
     o.nontrivial = rb.sr.max_live >= 3 || rc.sr.max_live >= 3;
     o.counters["threads." + std::to_string(c.nthreads)]++;
     if (c.noise) o.counters["probe.noise_client_ran"]++;
+    if (p.geti("large", 0)) o.counters["probe.large_operand"]++;
     if (rb.sr.clock_reads) o.counters["probe.wall_clock_read"]++;
     Hasher h; h.u64(ra.sr.hist_hash); h.u64(rc.sr.hist_hash); h.u64(rb.sr.hist_hash); A.hash(h); C.hash(h); B.hash(h);
     o.hash = h.h;
@@ -371,12 +387,22 @@ struct HCv : Harness {
       uint64_t d0 = 0;
       if (pristine_query(p.text().c_str(), &d0)) {
         o.counters["probe.compared_with_pristine_process"]++;
-        if (d0 != ha.h) o.fail("depends-on-earlier-calls", std::string(routine_name[c.routine]) + ": the result differs from the one obtained in a process that made no earlier library call (state kept across calls)");
+        if (d0 != ha.h) o.fail("depends-on-earlier-calls", std::string(routine_name[c.routine]) + ": the result differs from the one obtained in a process that made no earlier library call (state kept across calls; the pristine process also runs under its own clock)");
       } else o.counters["skipped.no_pristine_reference"]++;
     }
     if (!outs_equal_bits(B, C, &w)) o.fail("schedule-divergence", std::string(routine_name[c.routine]) + ": same inputs and thread count, different schedule / clock / concurrent caller / earlier call => different result: " + w);
     if (!outs_close(C, A, &w)) o.fail("thread-count-divergence", std::string(routine_name[c.routine]) + ": " + std::to_string(c.nthreads) + " threads differ from the sequential run: " + w);
     if (!has_nan(A.pred) && !has_nan(A.aux) && (has_nan(B.pred) || has_nan(B.aux) || has_nan(C.pred))) o.fail("nan", std::string(routine_name[c.routine]) + ": NaN appears only in the multithreaded run");
+    // C runs without the noise client: a clock read there was made by the routine itself.  That is legal only if the value does not
+    // reach the result, so the same execution is repeated under four more clocks (same schedule, same memory contents)
+    if (!o.violation && rc.sr.clock_reads > 0) {
+      o.counters["probe.routine_read_wall_clock"]++;
+      for (int e = 1; e <= 4 && !o.violation; e++) {
+        Out D; RunRes rd = run_once(p, c, D, SIM_S0_SEQUENTIAL, c.nthreads, c.nproc, false, 1000 + 3196801LL * e, nullptr, false, 1);
+        fill_outcome_from_sim(o, rd.sr, plan_strategy);
+        if (rd.rc == SIM_OK && !outs_equal_bits(D, C, &w)) o.fail("clock-dependence", std::string(routine_name[c.routine]) + ": the routine reads the wall clock and the same execution under another clock value gives a different result: " + w);
+      }
+    }
     if (o.violation && !p.has("sched.switches")) o.switch_list = rb.switches;
     return o;
   }
